@@ -26,11 +26,15 @@ ops:
        convergence test succeeds
     → err <kind>   |   ok nIterations converged target refTarget refIterations refConverged ; <src tgt rot mir fit:t fit:s fit:r fit:m> …
        (ref… = `refGpa`, the iteration with fresh alignments only; theorem `gpa_eq_fresh_iteration`)
+  gpachk <maxIter> <nsrc> <n> <d> <mirror> <fixedTarget> <flags>
+       `gpaChecked` (Core/C08Py.lean): the constructor behind the argument checks of `MultipleAlignment.__init__`
+    → exc <ValueError | IndexError | AssertionError | …>   |   ok nIterations converged target
 -/
 import MenpoModel.Core.Codec
 import MenpoModel.Core.C08Retarget
 import MenpoModel.Core.C08Heap
 import MenpoModel.Core.C08Table
+import MenpoModel.Core.C08Py
 
 namespace MenpoModel.Drive.C08
 open MenpoModel.Codec MenpoModel.C08
@@ -177,12 +181,27 @@ def gpaOp : P String := do
     pure (s!"ok {g.nIterations} {if g.converged then 1 else 0} {g.target} {ref} ; " ++
           " ; ".intercalate (g.transforms.map one))
 
+def fmtExc : PyExc → String
+  | .valueError => "ValueError" | .indexError => "IndexError" | .assertionError => "AssertionError"
+  | .recursionError => "RecursionError" | .notImplementedError => "NotImplementedError"
+
+def gpachkOp : P String := do
+  let maxIter ← pNat; let nsrc ← pNat; let n ← pNat; let d ← pNat
+  let mirror ← pBool; let fixedT ← pBool
+  let flags ← pList pBool
+  match gpaChecked (symExt n d) (symGpa flags) maxIter (List.range nsrc) (if fixedT then some 1000 else none) mirror with
+  | .error exc => pure ("exc " ++ fmtExc exc)
+  | .ok g => pure s!"ok {g.nIterations} {if g.converged then 1 else 0} {g.target}"
+
 def step (toks : List String) : String :=
   match toks with
   | "hist" :: rest => match runP histOp rest with
     | some s => s
     | none => "bad-op"
   | "gpa" :: rest => match runP gpaOp rest with
+    | some s => s
+    | none => "bad-op"
+  | "gpachk" :: rest => match runP gpachkOp rest with
     | some s => s
     | none => "bad-op"
   | _ => "bad-op"
